@@ -28,6 +28,13 @@ RULE = ('(1) exhaustive: the 103 exception classes of the model enum (names, dir
         'a few non-prefix corruptions; (3) dtype/shape mismatch matrix on the dict, NPY and S3 stores; (4) store-level '
         'faults (missing directory, EACCES as an unprivileged uid, ENOTDIR, EISDIR, 401/403, missing/empty bucket, '
         'connection refused); (5) the same faults under ChunkStoreVisFlagsWeights of a v4 data set (NPY and S3); '
+        '(5b) data sets (T, F <= 6; B <= 4, or 4 / 12 through VisibilityDataV4) whose four arrays are chunked '
+        'INDEPENDENTLY (identical / same block counts with shifted time and/or channel boundaries / independent / finer), '
+        '30% with a dump/channel preselection, on a real NPY store or behind the loopback S3 server: every chunk of every '
+        'array damaged once (sampled in the quick tier) plus random scenarios of 1-3 chunks: truncated at offsets around '
+        'magic / header end / last byte and random ones (S3: body cut under the whole Content-Length), removed (404), bad '
+        'magic, other dtype / shape, S3: 401 / 403; loaded through ChunkStoreVisFlagsWeights or d.vis / d.weights / '
+        'd.raw_flags and compared element by element with the extracted model and spec (wire 82); '
         '(6) strace of put_chunk compared with the model op list, then SIGKILL / ENOSPC / EIO / EACCES injected at '
         'each system call of the put (quick: a sample) with and without a previous chunk, and a genuine short write '
         'on a full tmpfs (plain and direct_write, with and without a previous chunk); (7) put_chunk_noraise under a '
@@ -47,7 +54,9 @@ ASSUMPTIONS = ['S3 cases use retries=0 so a persistent truncation exhausts the r
                'count / EFBIG instead of killing the process); without strace only its property half runs',
                'after the model run of a limited put has ended (error raised) the real code may issue further FAILING '
                'write calls (BufferedWriter flushing again on close): accepted, they have no effect',
-               'header text parser of the executable model handles the canonical header numpy writes for simple dtypes']
+               'header text parser of the executable model handles the canonical header numpy writes for simple dtypes',
+               'part 5b: stored values are small integers (exact products), vis never 0 so that a zero means zero-filled; when '
+               'several chunks make a load fail any one of their exceptions is accepted (scheduler order is not modelled)']
 
 IDX = {ctor: i for i, (ctor, _) in enumerate(EXN)}
 _CLASSES = None
